@@ -3,13 +3,12 @@ import ColoVerif.Model.Transp1d
 Local optimality certificate for the positions returned by `Transportation1dSolver::run`
 on the sorted, zero-free instance handed to the solver (C14, slack case).
 
-`locCertOk sv p be` is a decidable check on the solver instance `sv`, the positions `p` and
-sink prices `be`: prices are non-negative, a sink with a positive price is completely covered by
-the sources' intervals, and every source is (weakly) cheaper, prices included, in each sink it
-overlaps than in the two neighbouring sinks.  `Proofs/Transp1dOptLocal.lean` proves that on a
-sorted instance this local check implies the global dual certificate (Monge property of
-`|u i - v j|`), and `Proofs/Transp1dOptBack.lean` transfers it to `certOk` on the original problem.
-Core Lean only (the driver evaluates `locCertOk`).
+`ivCertOk sv p be` is a decidable O(n·m) check on the solver instance `sv`, the positions `p` and
+sink prices `be` (see its docstring).  `Proofs/Transp1dOptLocal.lean` proves that it implies the
+global dual certificate `GlobCert` (`ivCert_glob`), and `Proofs/Transp1dOptBack.lean` transfers
+that to `certOk` on the original problem.  `locCertOk` is the weaker neighbour-overlap check, kept
+with its counterexample (`localCert_not_glob`) and its soundness for strictly increasing sink
+positions (`localCert_glob_strict`).  Core Lean only (the driver evaluates `ivCertOk`).
 -/
 namespace ColoVerif.Transp1d
 
@@ -37,5 +36,21 @@ def locCertOk (sv : Solver) (p : List Int) (be : List Int) : Bool :=
   allBelow sv.u.length (fun i => allBelow (sv.v.length - 1) fun j =>
     decide (0 < ovP sv p i j → cs sv i j + be.getD j 0 ≤ cs sv i (j + 1) + be.getD (j + 1) 0) &&
     decide (0 < ovP sv p i (j + 1) → cs sv i (j + 1) + be.getD (j + 1) 0 ≤ cs sv i j + be.getD j 0))
+
+/-- the interval-guarded local certificate: prices are non-negative, a sink with a positive price
+is completely covered, and for every source `i` the priced cost `c i j + be j` does not decrease
+from sink `j` to `j+1` once the end of sink `j` lies right of the start of the source, and does not
+decrease from `j+1` to `j` once the start of sink `j+1` lies left of the end of the source.
+(`locCertOk`, which guards by the overlap with the neighbouring sink only, is NOT sufficient when
+neighbouring sinks share a position: `localCert_not_glob`.) -/
+def ivCertOk (sv : Solver) (p : List Int) (be : List Int) : Bool :=
+  allBelow sv.v.length (fun j => decide (0 ≤ be.getD j 0)) &&
+  allBelow sv.v.length (fun j => decide (0 < be.getD j 0 →
+    fillP sv p j sv.u.length = sv.D.getD (j + 1) 0 - sv.D.getD j 0)) &&
+  allBelow sv.u.length (fun i => allBelow (sv.v.length - 1) fun j =>
+    decide (loP sv p i < sv.D.getD (j + 1) 0 →
+      cs sv i j + be.getD j 0 ≤ cs sv i (j + 1) + be.getD (j + 1) 0) &&
+    decide (sv.D.getD (j + 1) 0 < hiP sv p i →
+      cs sv i (j + 1) + be.getD (j + 1) 0 ≤ cs sv i j + be.getD j 0))
 
 end ColoVerif.Transp1d
